@@ -153,6 +153,7 @@ def spec_xor(data, key):
 def _check_artifact(case, ctx, artifact):
     data, start, maxrange = case["data"], case["start"], case["maxrange"]
     ctx.mon("artifact.model")
+    core.set_buffer_size(case.get("bs"))  # whatever the scanner reads in blocks, it reads in blocks of this size
     fh = io.BytesIO(data)
     if start is None:
         fh.seek(case.get("pos", 0))
@@ -186,7 +187,7 @@ def _check_artifact(case, ctx, artifact):
             return
     ctx.ok(fp=("a", data, start, maxrange), nontrivial=bool(truth), case=case,
            classes=(f"artifact:n={min(len(truth), 3)}", "artifact:maxrange" if maxrange is not None else "artifact:nolimit",
-                    "artifact:start=None" if start is None else "artifact:start"))
+                    "artifact:start=None" if start is None else "artifact:start", f"artifact:bs={case.get('bs')}"))
 
 
 # ---- plan / generators -----------------------------------------------------------------------------
@@ -280,10 +281,21 @@ def run_shard(shard, ctx):
                 hdr = struct.pack("<II", p + 16, size) + _rbytes(rng, rng.choice([4, 4, 4, 0])) .ljust(4, b"\0") + _rbytes(rng, 8)
                 chunk = hdr[: max(4, min(len(hdr), n - p))] if rng.random() < 0.2 else hdr
                 data[p : p + len(chunk)] = chunk[: n - p]
+            bs = rng.choice([None, None, 8, 20, 64, 100, 4096])
+            b = bs or 8192
+            if n >= 24 and rng.random() < 0.5:
+                # headers that straddle a block boundary of the scanner (self-reference split 1|3, 2|2, 3|1, or just before/after)
+                for _ in range(rng.randrange(1, 4)):
+                    if n <= b + 24 and bs is None:
+                        data += _rbytes(rng, b + 64 - n) if rng.random() < 0.5 else bytes(b + 64 - n)
+                        n = len(data)
+                    p = b * rng.randrange(1, max(2, n // b + 1)) - rng.choice([0, 1, 2, 3, 4, 19, 20])
+                    if 0 <= p <= n - 20:
+                        data[p : p + 20] = struct.pack("<II", p + 16, rng.choice([0, 5, 64])) + _rbytes(rng, 12)
             data = bytes(data)
             start = rng.choice([0, 0, None, rng.randrange(0, n + 2)])
             maxrange = rng.choice([None, None, rng.randrange(0, n + 2), 0])
-            check_case({"op": "artifact", "data": data, "start": start, "maxrange": maxrange, "pos": rng.randrange(0, n + 1)}, ctx)
+            check_case({"op": "artifact", "data": data, "start": start, "maxrange": maxrange, "pos": rng.randrange(0, n + 1), "bs": bs}, ctx)
     else:
         raise ValueError(kind)
 
